@@ -61,12 +61,13 @@ def string_ops(f):
     for bb, t, ck, fr in f.calls():
         if not ck:
             continue
-        if ck.startswith(STR) and ck[len(STR):] in ("is_empty", "push_str", "push", "clear"):
-            op = ck[len(STR):]
-            b = buf_id(cfg.expr_operand(f, t["args"][0], 8))
+        if (ck.startswith(STR) and ck[len(STR):] in ("is_empty", "push_str", "push", "clear")) or ck == "str::is_empty":
+            # (a buffer handed on as `&str` is still that buffer: buf_id looks through String::deref)
+            op = ck.rsplit("::", 1)[1]
+            b = buf_id(cfg.expr_operand(f, t["args"][0], 14))
             arg = None
             if op == "push_str":
-                arg = ("buf", buf_id(cfg.expr_operand(f, t["args"][1], 8)))
+                arg = ("buf", buf_id(cfg.expr_operand(f, t["args"][1], 14)))
             elif op == "push":
                 e = cfg.expr_operand(f, t["args"][1], 8)
                 if e[0] == "const" and isinstance(e[1], tuple) and e[1][0] == "char":
@@ -93,7 +94,7 @@ def bool_switch(f, bi):
     while e[0] == "un" and e[1] == "Not":
         e = e[2]
         tt, ft = ft, tt
-    if e[0] == "call" and e[1] == STR + "is_empty":
+    if e[0] == "call" and e[1] in (STR + "is_empty", "str::is_empty") and (e[1] != "str::is_empty" or buf_id(e[2][0]) is not None):
         return ("empty", buf_id(e[2][0]), tt, ft)
     return ("flag", e, tt, ft)
 
